@@ -2068,6 +2068,13 @@ class Executor:
                     if rarg is not None or res.ty.kind == "none":
                         conj.extend(case.post(a, h0, h2, rarg))
                     alts.append(z3.And(*conj))
+                    last_conj = conj
+                if len(alts) == 1 and getattr(c, "split_post", False):
+                    # one return case: every conjunct of the postcondition is its own obligation (smaller queries, the failing clause is named)
+                    for idx, f in enumerate(last_conj):
+                        self.oblige(st, "post", f"return.{idx}", f, assume_after=False)
+                    self.check_frame(c, a, h0, st, mods_cells)
+                    continue
                 goal = z3.Or(*alts) if alts else z3.BoolVal(False)
                 self.oblige(st, "post", "return", goal, assume_after=False)
             elif fl[0] == RAISE:
